@@ -49,6 +49,11 @@ def units_C18(tier, seed):
         if w <= 32 or tier == 'thorough':
             U += unit(f'c18_ipow_bin_{w}', 'c18_numeric.cpp', f'ipow_bin_h<{t}>()', sites=[1], diff=(w == 32),
                       cfg=dict(bv, loop_cap=w + 2, query_timeout_ms=120000), weight=w * w, flavours=('rel',))
+        if w == 64:
+            # the other 64-bit unsigned type (distinct from uint64_t on LP64)
+            for e in (0, 1, 2, 3, 5, 13, 40, 63, 64):
+                U += unit(f'c18_ipow_exact_ull_{e}', 'c18_numeric.cpp', f'ipow_exact_h<unsigned long long,{e}>()', sites=[1])
+            U += unit('c18_round_pow2_ull', 'c18_numeric.cpp', 'round_pow2_h<unsigned long long>()', sites=[1, 2, 3], cfg={'loop_cap': w + 2})
         exps = range(0, 65) if tier == 'thorough' else (0, 1, 2, 3, 5, 8, 13, 31, 32, 33, 63, 64)
         for e in exps:
             U += unit(f'c18_ipow_exact_{w}_{e}', 'c18_numeric.cpp', f'ipow_exact_h<{t},{e}>()', sites=[1], diff=(e == 13))
@@ -171,6 +176,11 @@ def units_C14(tier, seed):
                       extra=['-mbmi2'], sites=[1, 2], diff=(N == 3 and C == 'size_t'))
             U += unit(f'c14_morton_curve_port_{N}_{C}', 'c01_layouts.cpp', f'morton_curve_h<{N},{C},false>()', 'BITS',
                       sites=[1, 2], diff=(N == 2 and C == 'size_t'))
+    # the curve position is computed in the index type of the array backend beneath: a signed one
+    for N in (1, 2, 3, 4):
+        U += unit(f'c14_morton_curve_port_{N}_size_t_idxlong', 'c01_layouts.cpp', f'morton_curve_h<{N},size_t,false,long>()', 'BITS', extra=['-mbmi2'], sites=[1, 2])
+        if N in (2, 4):
+            U += unit(f'c14_morton_curve_pdep_{N}_unsigned_idxlong', 'c01_layouts.cpp', f'morton_curve_h<{N},unsigned,true,long>()', 'BITS', extra=['-mbmi2'], sites=[1, 2])
     for k in range(1, (11 if th else 9)):
         U += unit(f'c14_hilbert_curve_{k}', 'c01_layouts.cpp', f'hilbert_curve_h<{k}>()', 'BITS', sites=[1, 2, 3, 4],
                   cfg={'query_timeout_ms': 600000}, weight=4 ** k, timeout=2400, diff=(k == 3))
@@ -204,7 +214,7 @@ INFO['C11'] = {
     'outside': 'NaN coordinates', 'cuts': 'probe backend (UF)', 'assumptions': [],
 }
 INFO['C04'] = {
-    'bounds': 'nearest_neighbour<probe>: N=1..4, coordinate scalar float (|x| < 2^23) and double (|x| < 2^52), every x_k in '
+    'bounds': 'nearest_neighbour<probe>: N=1..4, coordinate scalar float (|x| < 2^23) and double (|x| < 2^52), backend index types size_t and (N<=2) uint8/uint16/int16/int/unsigned/long with the domain ending at max(index type)+1/2, every x_k in '
               '(-0.5, E-0.5): delegated lattice point within 1/2 per component (exact comparisons on doubles); IEEE semantics '
               'bit-precise (z3 FP theory), lrint/lrintf modelled as round-to-nearest-even conversion (default rounding mode)',
     'outside': 'non-default rounding modes; coordinates beyond 2^23 / 2^52 where floats have no fractional part',
@@ -365,7 +375,12 @@ def units_C11(tier, seed):
 
 
 def units_C04(tier, seed):
-    return layer_units(tier, ['nn', 'nnfull'])
+    U = layer_units(tier, ['nn', 'nnfull'])
+    # backends indexed by other integer types (narrow unsigned, signed): the domain per axis ends at max(index type) + 1/2
+    for n, m, tc, ti in ((1, 1, 'float', 'uint8_t'), (2, 2, 'double', 'uint16_t'), (1, 2, 'double', 'uint8_t'), (2, 1, 'float', 'int'),
+                         (1, 1, 'float', 'unsigned'), (1, 1, 'double', 'long'), (1, 1, 'float', 'int16_t'), (2, 1, 'float', 'uint16_t')):
+        U += unit(f'c04_nn_idx_{n}_{m}_{tc}_{ti}', 'c02_layers.cpp', f'nn_h<{n},{m},{tc},{ti},float>()', sites=[1, 2, 3, 4], weight=20, cfg={'query_timeout_ms': 300000})
+    return U
 
 
 # ------------------------------------------------------------------------------------------------ C03 / C09
@@ -464,7 +479,7 @@ def units_C09(tier, seed):
 
 # ------------------------------------------------------------------------------------------------ C19 / C17 / C05
 INFO['C19'] = {
-    'bounds': 'nd_map<nd_size<D>>: D=1..3 with extents 0..3 (quick: 0..2 for D=3), D=4 with 0..2, D=5 with 0..1 (thorough); symbolic '
+    'bounds': 'nd_map<nd_size<D>>: D=1..3 with extents 0..3 (quick: 0..2 for D=3), D=4 with 0..2, D=5 with 0..1 (thorough); tuples of uint8/uint16/int with fixed extents whose product does not fit the type (16x16 in uint8, thorough: 8x8x4, 4x4x4x4); symbolic '
               'probe tuple over all 64-bit values: counted exactly once iff inside the box; invocation total == product of extents; '
               'closures (std::function copies) released; for ALL extent vectors with every extent >= 1 (unbounded 64-bit values), D=1..5: the '
               'callback is invoked and its first tuple is the origin (the callback leaves the walk by throwing)',
@@ -499,6 +514,11 @@ def units_C19(tier, seed):
         U += unit(f'c19_ndmap_{d}_{b}', 'c19_ndmap.cpp', f'ndmap_h<{d},{b}>()', sites=[1, 2, 3],
                   flavours=('rel', 'dbg', 'san') if d == 2 else ('rel',), diff=(d <= 2), weight=(b + 1) ** d, timeout=1800,
                   cfg={'max_paths': 20000})
+    # nd_map is a template over the tuple type: narrow index types whose extent product does not fit them
+    typed = [('uint8_t', 2, (16, 16)), ('uint16_t', 2, (3, 5)), ('int', 3, (2, 0, 3))] + ([('uint8_t', 3, (8, 8, 4)), ('uint8_t', 4, (4, 4, 4, 4))] if th else [])
+    for t, d, e in typed:
+        U += unit(f'c19_ndmap_typed_{t}_{"x".join(map(str, e))}', 'c19_ndmap.cpp', f'ndmap_typed_h<{t},{d},{",".join(map(str, e))}>()', sites=[1, 2, 3],
+                  weight=100, timeout=1800, cfg={'max_paths': 20000, 'max_instrs': 200_000_000})
     return U
 
 
@@ -514,6 +534,9 @@ def units_C17(tier, seed):
         U += unit(f'c17_accessors_{k}', H, f'accessors_h<{k}>()', sites=[1], diff=(k in (4, 5, 6)), flavours=('rel', 'dbg') if k in (4, 6) else ('rel',))
     for n, m in ((1, 1), (2, 3), (3, 2)) + (((4, 4), (1, 4)) if th else ()):
         U += unit(f'c17_backups_{n}_{m}', H, f'backups_h<{n},{m}>()', sites=[1], diff=(n == 2))
+    # the array backend with non-default index types: constructed size == reported size == allocated size
+    for t in ('uint8_t', 'uint16_t', 'int', 'long'):
+        U += unit(f'c17_array_index_{t}', H, f'array_index_h<{t}>()', sites=[1, 2, 3, 4, 5], flavours=('rel', 'dbg') if t == 'uint8_t' else ('rel',))
     # rebuilt from the reported configurations through every constructor overload of every layer
     for k in IO_STACKS + IO_LAYERS:
         U += unit(f'c17_rebuild_{k}', H, f'rebuild_h<{k}>()', sites=[1, 2, 3], diff=(k in (5, 6)), flavours=('rel', 'dbg') if k in (4, 5, 6, 21) else ('rel',))
@@ -679,6 +702,8 @@ def long_payload_units(tier, which):
                           timeout=3000, cfg={'sym_cells_cap': 16384})
         if bsz // 3 + 1 > 86:
             cross.append((0, 13, bsz // 3 + 1))          # widening: one path
+            if bsz <= 1100:
+                cross.append((0, 13, 2 * bsz // 3 + 2))  # ... and past the second full block
             if bsz <= 300:
                 cross.append((13, 0, bsz // 3 + 1))
     if which == 'C07':
